@@ -10,6 +10,7 @@ KT == INSTANCE Grammar_kt
 SW == INSTANCE Grammar_swift
 SC == INSTANCE Grammar_scala
 GO == INSTANCE Grammar_go
+SL == INSTANCE StringLit
 \* Python: the grammar is CPython's own (the property names it as the judge); the event carries its verdicts
 Grammar(e) == CASE e.lang = "typescript" -> TS!Accepts(e.tokens)
                 [] e.lang = "kotlin" -> KT!Accepts(e.tokens)
@@ -17,8 +18,9 @@ Grammar(e) == CASE e.lang = "typescript" -> TS!Accepts(e.tokens)
                 [] e.lang = "scala" -> SC!Accepts(e.tokens)
                 [] e.lang = "go" -> GO!Accepts(e.tokens)
                 [] e.lang = "python" -> e.cpython_parses /\ e.cpython_loads
-\* closed strings / comments (lexer verdict), closed delimiters, declaration grammar
-Accepts(e) == e.lex_ok /\ TS!Balanced(e.tokens) /\ Grammar(e)
+\* closed strings / comments (lexer verdict), escape sequences of string literals (e.strs: the bodies that contain a backslash),
+\* closed delimiters, declaration grammar
+Accepts(e) == e.lex_ok /\ SL!AllOk(e.lang, e.strs) /\ TS!Balanced(e.tokens) /\ Grammar(e)
 Init == i = 1 /\ bad = <<>>
 Next == /\ i <= Len(Rec)
         /\ bad' = IF Accepts(Rec[i]) THEN bad ELSE Append(bad, i)
